@@ -8,7 +8,7 @@ from ..strlang import Cat, Lit, Slot, Star
 from .deb822model import Model, KEY_RE
 
 META = {
-    'design_ref': 'DESIGN.md §3 C02',
+    'design_ref': 'DESIGN.md §5 C02',
     'technique': "writer/reader agreement decided on automata: dump template extracted from _dump_format (marker-aware rstrip, strip-loss hazard), instantiated with the property's value grammar, split into reader lines and pushed through the reader's line classes, which are read off the paths of _internal_parser with locals substituted away (marked-language capture agreement for key and first line); _skip_useless_lines as a language-level filter per input type and position (bytes/str twins compared as languages)",
     'level_text': 'Static decision for all keys/values of the stated grammar: every dumped line is routed by the reader\'s '
                   'regex cascade to the intended branch, the key and the trimmed first line are captured exactly, continuation '
